@@ -216,7 +216,7 @@ impl SMw {
             }
         }
         drop(d);
-        let read = if spec.reads_state && hook == Hook::BeforeDispatch {
+        let read = if spec.reads_state {
             w.store(sc.store).map(|s| s.get_state())
         } else {
             None
@@ -321,8 +321,11 @@ fn mk_mw(w: &Arc<World>, c: CompId) -> Arc<dyn Middleware<St, Act> + Send + Sync
 fn build_store(w: &Arc<World>, ix: StoreIx) -> Result<Arc<TStore>, StoreError> {
     let spec = &w.scn().stores[ix];
     let init = initial_state(ix);
+    let simple = spec.reducers.len() == 1 && spec.middlewares.is_empty() && spec.capacity == rs_store::DEFAULT_CAPACITY && spec.policy == Pol::Block;
     match &spec.ctor {
-        Ctor::NewWith => StoreImpl::new_with(
+        Ctor::Simple if simple && spec.name == rs_store::DEFAULT_STORE_NAME => Ok(StoreImpl::new_with_reducer(init, mk_red(w, spec.reducers[0]))),
+        Ctor::Simple if simple => StoreImpl::new_with_name(init, mk_red(w, spec.reducers[0]), spec.name.clone()),
+        Ctor::NewWith | Ctor::Simple => StoreImpl::new_with(
             init,
             spec.reducers.iter().map(|c| mk_red(w, *c)).collect(),
             spec.name.clone(),
@@ -471,7 +474,11 @@ fn do_op(w: &Arc<World>, op: &Op) -> Res {
                         .entry(*sub)
                         .or_insert_with(|| Arc::new(SSub { w: w.clone(), sub: *sub }))
                         .clone();
-                    s.add_subscriber(obj)
+                    if spec.via_trait {
+                        <TStore as Store<St, Act>>::add_subscriber(&*s, obj)
+                    } else {
+                        s.add_subscriber(obj)
+                    }
                 }
                 SubKind::Selector { fresh } => {
                     let w2 = w.clone();
@@ -482,7 +489,12 @@ fn do_op(w: &Arc<World>, op: &Op) -> Res {
                 }
                 SubKind::Channeled { cap, pol: p, default_ctor } => {
                     let obj = Box::new(SSub { w: w.clone(), sub: *sub });
-                    let r = if default_ctor { s.subscribed(obj) } else { s.subscribed_with(cap, pol(p), obj) };
+                    let r = match (default_ctor, spec.via_trait) {
+                        (true, false) => s.subscribed(obj),
+                        (true, true) => <TStore as Store<St, Act>>::subscribed(&*s, obj),
+                        (false, false) => s.subscribed_with(cap, pol(p), obj),
+                        (false, true) => <TStore as Store<St, Act>>::subscribed_with(&*s, cap, pol(p), obj),
+                    };
                     match r {
                         Ok(x) => x,
                         Err(_) => return Res::Err,
